@@ -138,6 +138,66 @@ Proof.
   cbn in Ua, Ub. inversion Ua; inversion Ub; subst. exists []. split; reflexivity.
 Qed.
 
+(* the "missing symbols" panic of _check_symbols is impossible: whenever the rebuilt node has symbols at all
+   (its unique_symbols does not raise the non-unique panic), they are those of the optimised operands *)
+Lemma usyms_bin_inv o a b S : usyms (Bin o a b) = Ok S ->
+  exists sa sb, usyms a = Ok sa /\ usyms b = Ok sb /\ S = (sa ++ sb)%list.
+Proof.
+  intros U.
+  destruct (usyms a) as [sa|] eqn:Ua; [|unfold Bin in U; cbn [usyms] in U; destruct o; cbn in U; rewrite Ua in U; discriminate U].
+  destruct (usyms b) as [sb|] eqn:Ub; [|unfold Bin in U; cbn [usyms] in U; destruct o; cbn in U; rewrite Ua in U; cbn in U; rewrite existsb_nil, Ub in U; discriminate U].
+  rewrite (usyms_bin o a b sa sb Ua Ub) in U. destruct (existsb _ sb); [discriminate|]. inversion U. eauto.
+Qed.
+Lemma usyms_inst_any T x y sx sy : usyms x = Ok sx -> usyms y = Ok sy ->
+  forall S', usyms (inst T x y) = Ok S' -> S' = tsyms T sx sy.
+Proof.
+  intros Hx Hy. induction T; intros S' H; cbn [inst tsyms] in *; try congruence.
+  - cbn in H. congruence.
+  - rewrite usyms_un in H. destruct (usyms (inst T x y)) as [s|]; cbn [bind] in H; [|discriminate].
+    inversion H; subst. apply IHT. reflexivity.
+  - apply usyms_bin_inv in H. destruct H as (sa & sb & H1 & H2 & ->). rewrite (IHT1 _ H1), (IHT2 _ H2). reflexivity.
+  - rewrite usyms_seq1 in H. destruct (usyms (inst T x y)) as [s|]; cbn [bind] in H; [|discriminate].
+    inversion H; subst. apply IHT. reflexivity.
+Qed.
+Lemma tsyms_covers T sx sy z : (1 <= cntX T)%nat -> In z sx -> In z (tsyms T sx sy).
+Proof.
+  induction T; cbn [tsyms cntX]; intros C Hz; try lia; auto.
+  apply in_or_app. destruct (cntX T1) eqn:C1; [right; apply IHT2; [lia | exact Hz] | left; apply IHT1; [lia | exact Hz]].
+Qed.
+Lemma tsyms_coversY T sx sy z : (1 <= cntY T)%nat -> In z sy -> In z (tsyms T sx sy).
+Proof.
+  induction T; cbn [tsyms cntY]; intros C Hz; try lia; auto.
+  apply in_or_app. destruct (cntY T1) eqn:C1; [right; apply IHT2; [lia | exact Hz] | left; apply IHT1; [lia | exact Hz]].
+Qed.
+Theorem symbol_check_never_fires o a b pc e' st now :
+  opt_binop o a b pc = Ok (Some e') -> usyms_union [a; b] = Ok st -> usyms e' = Ok now -> same_set st now = true.
+Proof.
+  intros H U N. cbn [usyms_union] in U.
+  destruct (usyms a) as [sa|] eqn:Ua; cbn [bind] in U; [|discriminate].
+  destruct (usyms b) as [sb|] eqn:Ub; cbn [bind] in U; [|discriminate]. inversion U; subst st. clear U.
+  unfold opt_binop in H. destruct (arith o) as [[fn u]|]; [|discriminate].
+  assert (GEN: forall x y sx sy, usyms x = Ok sx -> usyms y = Ok sy ->
+            (forall z, In z (sa ++ sb ++ []) <-> In z (sx ++ sy)) ->
+            (t <- rules o u x y pc ;; Ok (match t with Some t => finalize x y t | None => None end)) = Ok (Some e') ->
+            same_set (sa ++ sb ++ []) now = true).
+  { intros x y sx sy Ux Uy EQ HR. destruct (rules o u x y pc) as [[T|]|] eqn:ER; cbn [bind] in HR; try discriminate.
+    inversion HR as [HF]. apply finalize_inv in HF. destruct HF as [-> [FX FY]].
+    rewrite (usyms_inst_any T x y sx sy Ux Uy _ N).
+    apply same_set_refl_perm. intros z. rewrite EQ. split.
+    - intros Hz. apply in_app_or in Hz. destruct Hz as [Hz|Hz].
+      + destruct (cntX T) eqn:CT; [|apply tsyms_covers; [lia | exact Hz]].
+        rewrite (noncomplex_usyms x (FX eq_refl)) in Ux. inversion Ux; subst. contradiction.
+      + destruct (cntY T) eqn:CT; [|apply tsyms_coversY; [lia | exact Hz]].
+        rewrite (noncomplex_usyms y (FY eq_refl)) in Uy. inversion Uy; subst. contradiction.
+    - intros Hz. destruct (tsyms_in _ _ _ _ Hz) as [[A _]|[A _]]; apply in_or_app; auto. }
+  destruct a as [l| |]; destruct b as [r| |];
+    try (destruct (commutative o && is_int _) eqn:CM;
+         [eapply (GEN _ _ _ _ Ub Ua); eauto; intros z; rewrite !in_app_iff; cbn [In]; tauto
+         | eapply (GEN _ _ _ _ Ua Ub); eauto; intros z; rewrite !in_app_iff; cbn [In]; tauto]).
+  destruct (fold o l r) as [w|]; cbn [bind] in H; [|discriminate]. cbn in H. inversion H; subst.
+  cbn in Ua, Ub, N. inversion Ua; inversion Ub; inversion N; subst. reflexivity.
+Qed.
+
 (* ---------- the whole optimiser never duplicates or invents a symbol ----------
    cnt z e: how many (unique_symbol z) markers e carries (deploy skips its second argument, like unique_symbols);
    a marker whose name argument is not a leaf is counted for every z (its name could change under rewriting). *)
@@ -353,8 +413,9 @@ Proof.
   destruct (top_rule cancun pc op argz) as [|c new|x|er].
   - eapply FIN; eauto.
   - match type of H with (if ?c then _ else _) = _ => destruct c end; [|eapply FIN; eauto].
+    destruct (usyms_union argz) as [st|]; cbn [bind] in H; [|discriminate].
     destruct (usyms new) as [now|]; cbn [bind] in H; [|discriminate].
-    destruct (same_set starting now); [eapply FIN; eauto | discriminate].
+    destruct (same_set st now); [eapply FIN; eauto | discriminate].
   - eapply REC; eauto.
   - discriminate.
 Qed.
